@@ -40,15 +40,19 @@ package fzf
 //@ requires mg != nil
 //@ ensures result == mg.count
 
+// A merger is valid when its count is the number of items behind it and, for a sorted merger, the lazy
+// k-way merge state is consistent.
+//@ spec func mergerValid(mg *Merger) bool = (mg.chunks != nil ==> validChunks(*mg.chunks) && mg.count == sumc(*mg.chunks, len(*mg.chunks))) && (mg.chunks == nil ==> mg.count == sumlen(mg.lists, len(mg.lists)) && (mg.sorted ==> mergerInv(mg)))
+
 // Pass-through (no query / --no-sort without pattern): the idx-th result is the item at flat position idx
 // (counted from the end under --tac) of the chunk list, whatever the size of the first chunk.
 //@ func Merger.Get
 //@ property C04 C06
-//@ deadreturns 1
-//@ note the sorted branch (mergedGet) is excluded by the precondition !mg.sorted here
-//@ requires mg != nil && 0 <= idx && idx < mg.count && !mg.sorted
-//@ requires mg.chunks != nil ==> len(*mg.chunks) >= 1 && validChunks(*mg.chunks) && mg.count == sumc(*mg.chunks, len(*mg.chunks))
-//@ requires mg.chunks == nil ==> mg.count == sumlen(mg.lists, len(mg.lists))
+//@ requires mg != nil && mergerValid(mg) && 0 <= idx && idx < mg.count
+//@ modifies mg.merged, mg.cursors[*], mg.merged[len(mg.merged):cap(mg.merged)]
+//@ ensures mergerValid(mg) && mg.count == old(mg.count) && mg.chunks == old(mg.chunks) && mg.tac == old(mg.tac) && mg.sorted == old(mg.sorted)
+//@ ensures (mg.merged.arr == old(mg.merged.arr) && mg.merged.off == old(mg.merged.off) && cap(mg.merged) == old(cap(mg.merged)) && len(mg.merged) >= old(len(mg.merged))) || fresh(mg.merged)
+//@ ensures mg.cursors == old(mg.cursors)
 //@ ensures mg.chunks != nil ==> result.item == nthItem(*mg.chunks, 0, mg.tac ? mg.count - 1 - idx : idx)
 //@ use @"firstChunk := (*mg.chunks)[0]" sumc_mid(*mg.chunks, len(*mg.chunks) - 1)
 //@ use @"chunk := (*mg.chunks)[idx/chunkSize+1]" nth_full(*mg.chunks, 1, idx / 100, idx)
@@ -89,8 +93,10 @@ package fzf
 //@ func Merger.mergedGet trusted
 //@ requires mg != nil && mergerInv(mg) && 0 <= idx && idx < mg.count
 //@ modifies mg.merged, mg.cursors[*], mg.merged[len(mg.merged):cap(mg.merged)]
-//@ ensures mergerInv(mg) && idx < len(mg.merged) && result == mg.merged[idx]
+//@ ensures mergerInv(mg) && idx < len(mg.merged) && result == mg.merged[idx] && mg.count == old(mg.count) && mg.chunks == old(mg.chunks) && mg.lists == old(mg.lists) && mg.tac == old(mg.tac) && mg.sorted == old(mg.sorted)
 //@ ensures forall(k, 0, old(len(mg.merged)), mg.merged[k] == old(mg.merged[k]))
+//@ ensures (mg.merged.arr == old(mg.merged.arr) && mg.merged.off == old(mg.merged.off) && cap(mg.merged) == old(cap(mg.merged)) && len(mg.merged) >= old(len(mg.merged))) || fresh(mg.merged)
+//@ ensures mg.cursors == old(mg.cursors)
 
 //@ func PassMerger
 //@ property C04 C06
@@ -368,3 +374,32 @@ package fzf
 //@ effect send server.actionChannel requires (len(server.apiKey) == 0 || content_eq(bytesOf(apiKey), server.apiKey)) && len(actions) > 0
 //@ loop 1
 //@   invariant 0 <= section && section <= 2 && 0 <= contentLength && contentLength <= 1048576 && (section == 2 ==> contentLength > 0)
+
+// Terminal helpers used by the GET handler; their own behaviour belongs to other properties.
+//@ func Terminal.tryLock trusted
+//@ func Terminal.sortSelected trusted
+//@ ensures fresh(result)
+//@ func Terminal.dumpItem trusted
+
+//@ func Terminal.currentItem
+//@ property C16 C09
+//@ requires t != nil && t.merger != nil && mergerValid(t.merger)
+//@ modifies t.merger.merged, t.merger.cursors[*], t.merger.merged[len(t.merger.merged):cap(t.merger.merged)]
+//@ ensures mergerValid(t.merger) && t.merger.count == old(t.merger.count) && t.merger == old(t.merger)
+//@ ensures (t.merger.merged.arr == old(t.merger.merged.arr) && t.merger.merged.off == old(t.merger.merged.off) && cap(t.merger.merged) == old(cap(t.merger.merged)) && len(t.merger.merged) >= old(len(t.merger.merged))) || fresh(t.merger.merged)
+//@ ensures t.merger.cursors == old(t.merger.cursors)
+//@ ensures (result != nil) ==> (0 <= t.cy && t.cy < t.merger.count)
+
+// GET handler: builds the status from any limit/offset without indexing outside the selection or the
+// match list and without a negative allocation size; it does not change the UI state it reports.
+//@ func Terminal.dumpStatus
+//@ property C16
+//@ requires t != nil && t.merger != nil && mergerValid(t.merger) && params.offset >= 0 && t.merger.count <= 140737488355328
+//@ modifies t.merger.merged, t.merger.cursors[*], t.merger.merged[len(t.merger.merged):cap(t.merger.merged)]
+//@ loop 1
+//@   writes selected[*]
+//@   invariant len(selected) <= len(selectedItems) - params.offset || len(selected) == 0
+//@ loop 2
+//@   invariant mergerValid(t.merger) && t.merger != nil && t.merger == old(t.merger) && (len(matches) <= t.merger.count - params.offset || len(matches) == 0) && fresh(matches)
+//@   invariant (t.merger.merged.arr == old(t.merger.merged.arr) && t.merger.merged.off == old(t.merger.merged.off) && cap(t.merger.merged) == old(cap(t.merger.merged)) && len(t.merger.merged) >= old(len(t.merger.merged))) || fresh(t.merger.merged)
+//@   invariant t.merger.cursors == old(t.merger.cursors)
